@@ -5,6 +5,7 @@
  *   init <nloops> <loop-of-h0> <loop-of-h1> ...
  *   script <k> <op>:<h>[:<sig>] ...      ops of the k-th signal callback (global count)
  *   start hN sig | oneshot hN sig | stop hN | close hN | ref hN | unref hN | raise sig | run L
+ *   burst sig N        N guarded raises in a row (large bursts, up to and across the pipe capacity)
  *   runraise L sig [op:h[:sig] ...]
  *                      one loop iteration during which `sig` is raised (and the ops are performed)
  *                      from a uv_check callback, i.e. after the poll phase, before the closing phase
@@ -13,6 +14,7 @@
  * malloc'ed up front, the pointers sorted, and id i is the i-th smallest address, so
  * that "pointer order" = "id order" as in the model.  Handles are freed in close_cb
  * (a message that outlives its handle is a heap-use-after-free for ASan). */
+#include <fcntl.h>
 #include <signal.h>
 #include <stdio.h>
 #include <stdlib.h>
@@ -136,9 +138,24 @@ int main(void) {
       for (i = 0; i < nl; i++) if (uv_loop_init(loops[i])) abort();
       for (i = 0; i < nh; i++) if (uv_signal_init(loops[hloop[i]], hs[i])) abort();
       for (i = 0; i < nl; i++) uv_check_init(loops[i], &chk[i]);
+      for (i = 0; i < nl; i++)
+        if (loops[i]->signal_pipefd[1] != -1 && fcntl(loops[i]->signal_pipefd[1], F_GETPIPE_SZ) != 65536 &&
+            fcntl(loops[i]->signal_pipefd[1], F_SETPIPE_SZ, 65536) != 65536)
+          printf("obs pipe-size-not-64k\n");           /* shows up as a diff against the model */
       obs();
     } else if (sscanf(line, "script %u %n", &k, &off) == 1 && k < MAXK) {
       free(script[k]); script[k] = strdup(line + off);
+    } else if (sscanf(line, "burst %d %d", &sig, &i) == 2) {
+      int k = 0;
+      if (!known_sig(sig) || i < 0) { printf("bad-op\n"); continue; }
+      for (; k < i; k++) {
+        struct sigaction sa;
+        sigaction(sig, NULL, &sa);
+        if (sa.sa_handler == SIG_DFL) break;      /* never take the default action (RESETHAND after the first) */
+        raise(sig);
+      }
+      printf("raised %d\n", k);
+      obs();
     } else if (sscanf(line, "raise %d", &sig) == 1) {
       if (!known_sig(sig)) { printf("bad-op\n"); continue; }
       do_raise(sig);
